@@ -110,7 +110,7 @@ def rules(ctx):
                     facts += compare_atoms(t, pol)
                     # guard owner must dominate every return
                 for f in facts:
-                    if len(f) == 3 and f[2] in ('2',) and f[1] == '<' or (len(f) == 3 and f[2] == '1' and f[1] == '<='):
+                    if len(f) == 3 and ((f[2] == '2' and f[1] == '<') or (f[2] == '1' and f[1] == '<=')):
                         lhs = f[0]
                         is_len = lhs == 'len(%s)' % vparam or any(
                             isinstance(v, ast.AST) and src(v) == 'len(%s)' % vparam
